@@ -326,7 +326,7 @@ def config_small(draw, kinds=KINDS):
 @st.composite
 def config(draw, kinds=KINDS):
     cfg = draw(config_small(kinds))
-    if cfg["kind"] in ("stdin", "raw", "fifo", "pipe") and draw(rarely(12)):
+    if cfg["kind"] in ("stdin", "raw", "fifo", "pipe") and draw(rarely(30)):
         # one or two MiB of audio (exactly, or a sample more): requests above a MiB, met or cut short by the end
         bps = cfg["sw"] * cfg["ch"]
         cfg["N"] = draw(st.sampled_from([1 << 20, 2 << 20])) // bps + draw(st.sampled_from([0, 0, 1]))
